@@ -35,6 +35,7 @@ package interp
 // The compiler cannot help you since value is an empty interface.
 
 import (
+	"go/token"
 	"bytes"
 	"fmt"
 	"go/types"
@@ -181,6 +182,9 @@ func (x iface) eq(t types.Type, _y interface{}) bool {
 }
 
 func (x iface) hash(outer types.Type) int {
+	if x.t == nil {
+		return 17
+	}
 	return hashType(x.t)*8581 + hash(outer, x.t, x.v)
 }
 
@@ -197,6 +201,29 @@ func (x rtype) eq(_ types.Type, y interface{}) bool {
 // In a well-typed program, the dynamic types of x and y are
 // guaranteed equal.
 func equals(t types.Type, x, y value) bool {
+	if isSym(x) || isSym(y) {
+		r := curTT.symBinop(token.EQL, x, y)
+		if sv, ok := r.(symv); ok {
+			return curPC.branch(sv.t)
+		}
+		return r.(bool)
+	}
+	switch xx := x.(type) {
+	case fakePtr:
+		switch yy := y.(type) {
+		case fakePtr:
+			return xx == yy
+		case unsafe.Pointer:
+			return (xx == 0) == (yy == nil)
+		}
+	case unsafe.Pointer:
+		switch yy := y.(type) {
+		case fakePtr:
+			return (yy == 0) == (xx == nil)
+		case unsafe.Pointer:
+			return xx == yy
+		}
+	}
 	switch x := x.(type) {
 	case bool:
 		return x == y.(bool)
@@ -255,6 +282,9 @@ func equals(t types.Type, x, y value) bool {
 // Returns an integer hash of x such that equals(x, y) => hash(x) == hash(y).
 // The outer type is used only for the "unhashable" panic message.
 func hash(outer, t types.Type, x value) int {
+	if isSym(x) {
+		unsup("symbolic value used as map key")
+	}
 	switch x := x.(type) {
 	case bool:
 		if x {
